@@ -24,7 +24,7 @@ func txnVerifyReqs() []Req {
 }
 
 func checkC09(r *Run) {
-	r.Explain = "C09: decides, on every path of coin.Transaction.verify, (R1) that each success return is reachable only after the 15 documented well-formedness conditions were established (guard facts over SSA dominators, loop-quantified facts with their iteration space), (R2) that the function enforces no condition outside the documented set (exhaustive reject mapping), (R3) that the exported entry points are tail calls of verify with the right signed flag and that decoding goes through the exact (whole-buffer) generated decoder whose schema is validated under C21."
+	r.Explain = "(R5) the generated encoder/decoder of coin.Transaction match the schema derived from the type and its tags (so decoding accepts exactly the byte strings encoding can produce, with the same length limits); C09: decides, on every path of coin.Transaction.verify, (R1) that each success return is reachable only after the 15 documented well-formedness conditions were established (guard facts over SSA dominators, loop-quantified facts with their iteration space), (R2) that the function enforces no condition outside the documented set (exhaustive reject mapping), (R3) that the exported entry points are tail calls of verify with the right signed flag and that decoding goes through the exact (whole-buffer) generated decoder whose schema is validated under C21."
 	r.NotDec = "signature mathematics (C14); that SizeHash/hashInner compute the right bytes (C21 covers the codecs); values of concrete transactions"
 	reqs := txnVerifyReqs()
 	r.RequireOnSuccess("C09-R1", "coin.Transaction.verify", reqs...)
@@ -53,4 +53,8 @@ func checkC09(r *Run) {
 	// hasNullSignature really scans Sigs
 	r.RequireOnSuccess("C09-R3", "coin.Transaction.hasNullSignature")
 	checkPure(r, "C09-R4", "coin.Transaction.verify")
+	// R5: the transaction's generated codec is the reference codec of its type (decode accepts exactly what
+	// encode can produce: same field order, same length limits) — the rule set of C21 on this one type
+	n, _, _ := codecObligations(r, "C09-R5", func(t string) bool { return t == "coin.Transaction" })
+	r.Check("C09-R5", "the generated codec of coin.Transaction was found and validated against its type", "", n == 1, "")
 }
